@@ -26,13 +26,13 @@ def gen(prop, props=None, **kw):
 
 PROPS = {
     "C01": {
-        "units": [gen("C01")],
+        "units": [gen("C01"), {"name": "IMPL", "backend": "verus", "props": ["C01_impl.rs"], "tags": ["C01"], "specs": "contracts_impl", "prelude": "impl"}],
         "trusted_base": TB_ALGEBRA,
         "hypotheses": [X_NONID],
         "not_decided": ["serde_bare/serde_json round trips of Signature (derive expansion, L-SERDE)"],
     },
     "C02": {
-        "units": [gen("C02")],
+        "units": [gen("C02"), {"name": "IMPL", "backend": "verus", "props": ["C01_impl.rs"], "tags": ["C02"], "specs": "contracts_impl", "prelude": "impl"}],
         "trusted_base": TB_ALGEBRA,
         "hypotheses": [X_NONID, "X-INJ / X-DSEP (explicit hypotheses of the lemmas): the hash point of another message or under another tag differs"],
         "not_decided": ["re-randomised projective representations (equal as group elements: the contracts speak about group elements, A-GROUP)"],
@@ -57,6 +57,14 @@ PROPS = {
         "units": [gen("C07", props=["lib_sums.rs", "C07.rs"])],
         "trusted_base": TB_ALGEBRA,
         "hypotheses": [X_NONID, "X-INJ (explicit): another message hashes to another point", "the accumulated key is not the identity (explicit requires; otherwise C04 applies)"],
+    },
+    "C03": {
+        "units": [gen("C03"),
+                  {"name": "IMPL", "backend": "verus", "props": ["C03_impl.rs"], "tags": ["C03"], "specs": "contracts_impl", "prelude": "impl"}],
+        "trusted_base": TB_ALGEBRA + ["H-HKDF: HKDF extract/expand are uninterpreted functions of their exact inputs", "A-H2C: hash_to_curve(expander, msg, tag) is an uninterpreted function; the expander type is one of its arguments",
+                                      "the primitives themselves (SSWU map, expand_message_xmd, HKDF, SHA-256, compressed encoding) are NOT verified: byte-exactness of outputs is conditional on them"],
+        "hypotheses": [],
+        "not_decided": ["byte-for-byte equality with an independent reference implementation on concrete inputs (execution of the curve arithmetic, not deduction)"],
     },
 }
 
